@@ -39,8 +39,8 @@ def float_to_mpfr(x: RealFloat | Float):
     """
     if isinstance(x, Float):
         if x.isnan:
-            # drops sign bit
-            return gmp.nan()
+            # the sign is a datum of a NaN too (`copysign` reads it)
+            return gmp.set_sign(gmp.nan(), x.s)
         elif x.isinf:
             return gmp.set_sign(gmp.inf(), x.s)
 
